@@ -844,6 +844,9 @@ fn hook_send(sock: &UnixStream, iovs: &[&[u8]], fds: &[RawFd]) -> Result<usize, 
     let mut st = sh.lock();
     match &res {
         Ok(n) => {
+            if *n < cut {
+                st.fired("kernel_partial_write");
+            }
             let mut bytes = Vec::with_capacity(*n);
             let mut left = *n;
             for s in &v {
@@ -864,7 +867,12 @@ fn hook_send(sock: &UnixStream, iovs: &[&[u8]], fds: &[RawFd]) -> Result<usize, 
             });
             st.ev(id, "sent");
         }
-        Err(_) => st.ev(id, "send failed"),
+        Err(e) => {
+            if *e == libc::EAGAIN {
+                st.fired("kernel_eagain_on_send");
+            }
+            st.ev(id, "send failed")
+        }
     }
     res
 }
